@@ -193,8 +193,8 @@ def run(ck):
         if any('"e":"Crashed"' in y or '"e":"HarnessTimeout"' in y for y in e):
             ck.violation("state machine execution crashed or hung", ck.save_replay("crash", {"trace.ndjson": "\n".join(e) + "\n", "case.txt": case_of(x) + "\n"}))
             return
-    nrep = sum(1 for k in kinds if k == "replay" or k.startswith("probe"))
-    drift = sum(1 for i, e in enumerate(execs) if i < len(kinds) and (kinds[i] == "replay" or kinds[i].startswith("probe")) and '"drift":true' in e[-1])
+    nrep = sum(1 for k in kinds if k == "replay")   # (probes of deviating designs may be infeasible on the real code)
+    drift = sum(1 for i, e in enumerate(execs) if i < len(kinds) and kinds[i] == "replay" and '"drift":true' in e[-1])
     ck.note("replayed %d TLC behaviours at critical-section grain, %d drifted" % (nrep, drift))
 
     def nontrivial(e):
